@@ -43,6 +43,7 @@ DEFAULT_PROFILE = {
     "p_enq": 0.0,
     "raise_events": 2,
     "p_forbid": 0.0,
+    "root_final": True,
 }
 
 
@@ -149,7 +150,8 @@ class MachineGen:
                     kind = "parallel"
                 elif r < p["p_parallel"] + p["p_compound"]:
                     kind = "compound"
-            if kind == "atomic" and i > 0 and rng.random() < p["p_final"] and not have_final:
+            if kind == "atomic" and i > 0 and rng.random() < p["p_final"] and not have_final and (
+                    node.depth > 0 or p.get("root_final", True)):
                 kind = "final"
                 have_final = True
             c = GNode(self.key(), kind, node)
